@@ -1,5 +1,6 @@
 /- Helper lemmas for C17 (c): LimitSkipTracker window and the parallelNodeQuery range partition. -/
 import Dawgs.Model.C17Seq
+set_option linter.unusedSimpArgs false
 namespace Dawgs.C17.Seq
 
 theorem offer_nil (t : Tracker) : (t.offer ([] : List α)).2 = [] := rfl
@@ -95,5 +96,112 @@ theorem floorsLoop_le (max stride : Nat) (fuel f : Nat) : ∀ x ∈ floorsLoop m
       | head => assumption
       | tail _ h => exact ih _ x h
     · cases hx
+
+/-! ### helpers: the loop collects the window of the filtered DFS sequence -/
+
+theorem offer_nil1 (t : Tracker) : (t.offer ([] : List α)).1 = t := rfl
+theorem offer_cons1 (t : Tracker) (x : α) (xs : List α) :
+    (t.offer (x :: xs)).1 = (t.shouldCollect.1.offer xs).1 := rfl
+
+theorem offer_single (t : Tracker) (x : α) :
+    t.offer [x] = (t.shouldCollect.1, if t.shouldCollect.2 then [x] else []) := rfl
+
+theorem offer_append (t : Tracker) (xs ys : List α) :
+    (t.offer (xs ++ ys)).1 = ((t.offer xs).1.offer ys).1 ∧
+    (t.offer (xs ++ ys)).2 = (t.offer xs).2 ++ ((t.offer xs).1.offer ys).2 := by
+  induction xs generalizing t with
+  | nil => exact ⟨rfl, rfl⟩
+  | cons x xs ih =>
+    have h := ih t.shouldCollect.1
+    refine ⟨?_, ?_⟩
+    · show ((t.offer (x :: (xs ++ ys))).1) = _
+      rw [offer_cons1, offer_cons1]; exact h.1
+    · show ((t.offer (x :: (xs ++ ys))).2) = _
+      rw [offer_cons, offer_cons, offer_cons1, h.2]
+      split <;> simp
+
+/-- once a value has been collected the skip budget is exhausted -/
+def TInv (t : Tracker) : Prop := t.seen > 0 → t.skip ≤ 0
+
+theorem tinv_shouldCollect (t : Tracker) (h : TInv t) : TInv t.shouldCollect.1 := by
+  unfold Tracker.shouldCollect
+  split
+  · next hs => intro hseen; have := h hseen; omega
+  · next hs =>
+    split
+    · intro _; show t.skip ≤ 0; omega
+    · exact h
+
+theorem tinv_offer (t : Tracker) (h : TInv t) (xs : List α) : TInv (t.offer xs).1 := by
+  induction xs generalizing t with
+  | nil => exact h
+  | cons x xs ih => rw [offer_cons1]; exact ih _ (tinv_shouldCollect t h)
+
+theorem offer_atLimit (t : Tracker) (h : TInv t) (ha : t.atLimit = true) (xs : List α) : (t.offer xs).2 = [] := by
+  simp only [Tracker.atLimit, Bool.and_eq_true, decide_eq_true_eq] at ha
+  have hs : t.skip ≤ 0 := h (by omega)
+  rw [offer_noskip t hs, if_pos ha.1]
+  have : t.limit.toNat - t.seen = 0 := by omega
+  rw [this]; rfl
+
+/-- the descent loop = filter, then offer the filtered candidates -/
+theorem pushAll_eq (p : Plan) (t : Tracker) (cs : List Seg) :
+    pushAll p t cs = ((t.offer (cs.filter (offeredByDescent p))).1, cs.filter (pushOK p),
+                      (t.offer (cs.filter (offeredByDescent p))).2) := by
+  induction cs generalizing t with
+  | nil => rfl
+  | cons c cs ih =>
+    unfold pushAll
+    simp only [ih]
+    unfold descentOne pushOK offeredByDescent
+    cases hd : optAccept p.descentFilter c <;> cases hh : p.helper <;>
+      simp [hd, hh, List.filter_cons, pushOK, offeredByDescent, offer_nil1] <;>
+      (try (cases hn : optAccept p.nodeFilter c.node <;> simp [hn, offer_cons, offer_cons1] <;> (try (split <;> simp)))) <;>
+      (try (cases hc : c.isCycle <;> simp [hc]))
+
+theorem visitOne_eq (p : Plan) (t : Tracker) (next : Seg) (np : Bool) :
+    visitOne p t next np = t.offer (if offeredByVisit p next np then [next] else []) := by
+  unfold visitOne offeredByVisit
+  cases hh : p.helper <;> simp [hh]
+  all_goals first | rfl | (split <;> simp_all [offer_single] <;> rfl)
+
+theorem iter_eq (p : Plan) (st : St) :
+    iter p st = (iterCore p { stack := st.stack, visited := st.visited }).map (fun r =>
+      { stack := if (st.tracker.offer r.2).1.atLimit then [] else r.1.stack, tracker := (st.tracker.offer r.2).1,
+        visited := r.1.visited, out := st.out ++ (st.tracker.offer r.2).2 }) := by
+  unfold iter iterCore
+  cases hs : st.stack with
+  | nil => rfl
+  | cons next below =>
+    simp only [Option.map_some, pushAll_eq, visitOne_eq]
+    have ha := offer_append st.tracker ((expandNext p st.visited next).2.filter (offeredByDescent p))
+      (if offeredByVisit p next ((expandNext p st.visited next).2.filter (pushOK p)).isEmpty then [next] else [])
+    rw [ha.1, ha.2, List.append_assoc]
+
+theorem loop_out (p : Plan) (fuel : Nat) (st : St) (h : TInv st.tracker) :
+    (loop p fuel st).out =
+      st.out ++ (st.tracker.offer (events p fuel { stack := st.stack, visited := st.visited })).2 := by
+  induction fuel generalizing st with
+  | zero => simp [loop, events, offer_nil]
+  | succ n ih =>
+    unfold loop events
+    rw [iter_eq]
+    cases hc : iterCore p { stack := st.stack, visited := st.visited } with
+    | none => simp [offer_nil]
+    | some r =>
+      obtain ⟨c', off⟩ := r
+      simp only [Option.map_some]
+      have hinv := tinv_offer st.tracker h off
+      have happ := offer_append st.tracker off (events p n c')
+      by_cases hat : (st.tracker.offer off).1.atLimit = true
+      · -- `break`: nothing further would have been collected anyway
+        have hstop : ∀ m (s : St), s.stack = [] → loop p m s = s := by
+          intro m s hs; cases m with
+          | zero => rfl
+          | succ k => unfold loop iter; rw [hs]
+        rw [hstop n _ (by simp [hat])]
+        simp only [happ.2, offer_atLimit _ hinv hat, List.append_nil]
+      · rw [ih _ hinv]
+        simp only [if_neg hat, happ.2, List.append_assoc]
 
 end Dawgs.C17.Seq
